@@ -90,3 +90,8 @@ Theorem replace_empty_key_refuted : forall c data m rest, replace false (c :: da
 Proof.
   intros c data m rest. unfold replace. rewrite repl_keys_cons. cbn [andb]. rewrite repl_key_empty_loops. reflexivity.
 Qed.
+
+(* the tree as it is (T1: Facts.fact_replace_skips_empty_key, observed by running iwu_replace with an empty key under an alarm) *)
+Lemma replace_skips_empty_key_now : fact_replace_skips_empty_key = true. Proof. reflexivity. Qed.
+Theorem replace_current_terminates : forall data keys, exists r, replace_current data keys = Ok r.
+Proof. intros data keys. unfold replace_current. apply replace_terminates. right. exact replace_skips_empty_key_now. Qed.
